@@ -60,6 +60,21 @@ fn hash_order_hostile(r: &mut Rng) -> String {
     t
 }
 
+/// programs that fail inside a library function on their data (invalid regular expression, format arity): the
+/// failure must be the same whatever ran before in the process — nothing may be remembered from one call to the next
+fn history_hostile(r: &mut Rng) -> String {
+    let bad = *r.pick(&["(", "[z-a]", "a{2,1}", "(?P<n>", "\\"]);
+    let subject = *r.pick(&["a-b-c", "abc", "x(y"]);
+    match r.below(6) {
+        0 => format!("(module) @m {{\n  node n\n  attr (n) out = (replace \"{}\" \"{}\" \"+\")\n}}\n", subject, bad),
+        1 => format!("(module) @m {{\n  node n\n  attr (n) fine = (replace \"a-b\" \"-\" \"+\")\n}}\n(module) @m2 {{\n  node n2\n  attr (n2) out = (replace \"{}\" \"{}\" \"+\")\n}}\n", subject, bad),
+        2 => format!("(module) @m {{\n  node n\n  if (eq (replace \"{}\" \"{}\" \"\") \"\") {{\n    attr (n) empty\n  }}\n}}\n", subject, bad),
+        3 => format!("(module) @m {{\n  node n\n  attr (n) out = (format \"{{}}{{}}\" \"{}\")\n}}\n", subject),
+        // the pattern comes from the source: valid on one tree, invalid on the next (see `hostile_sources`)
+        _ => format!("(string_content) @c {{\n  node n\n  attr (n) out = (replace \"{}\" (source-text @c) \"+\")\n}}\n", subject),
+    }
+}
+
 /// transcript of one (text, source) pair: load result and both modes' results, all in canonical form
 fn transcript(text: &str, src: &str, globals: &[(String, tree_sitter_graph::graph::Value)]) -> String {
     match load(text) {
@@ -111,7 +126,7 @@ pub fn child(seed: u64, n: usize, only: Option<usize>) {
         let mut r = root.fork(pi as u64);
         let opts = opts_for(pi, &mut r);
         let program = gen_program(&mut r, &pool, &opts);
-        let text = if pi % 5 == 4 { faulty_variant(&mut r, &program.text) } else if pi % 7 == 6 { hash_order_hostile(&mut r) } else { program.text.clone() };
+        let text = if pi % 11 == 10 { history_hostile(&mut r) } else if pi % 5 == 4 { faulty_variant(&mut r, &program.text) } else if pi % 7 == 6 { hash_order_hostile(&mut r) } else { program.text.clone() };
         let source = gen_source(&mut r, true, false);
         let globals = supply_globals(&mut r, &program);
         println!("{}", transcript(&text, &source.src, &globals));
@@ -138,7 +153,13 @@ pub fn run(rep: &mut Report, tier: &str, seed: u64) {
         // isolation: a case run ALONE in a fresh process gives the line it gave in sequence (no state carried from
         // one loaded file or execution to the next)
         let failing: Vec<usize> = first.iter().enumerate().filter(|(_, l)| l.contains("(err ")).map(|(i, _)| i).collect();
-        let sample: Vec<usize> = failing.iter().cloned().step_by((failing.len() / (if tier == "thorough" { 60 } else { 12 })).max(1)).collect();
+        let mut sample: Vec<usize> = failing.iter().cloned().step_by((failing.len() / (if tier == "thorough" { 60 } else { 12 })).max(1)).collect();
+        // the history-hostile cases are always re-run alone
+        for i in failing.iter().cloned().filter(|i| i % 11 == 10).take(if tier == "thorough" { 40 } else { 6 }) {
+            if !sample.contains(&i) {
+                sample.push(i);
+            }
+        }
         for i in sample {
             let o = Command::new(&exe).args(["c12-child", &seed.to_string(), &n.to_string(), &i.to_string()]).stderr(std::process::Stdio::null()).output().expect("spawn child");
             let alone = String::from_utf8_lossy(&o.stdout).to_string();
@@ -168,7 +189,7 @@ pub fn run(rep: &mut Report, tier: &str, seed: u64) {
         let mut r = root.fork(pi as u64);
         let opts = opts_for(pi, &mut r);
         let program = gen_program(&mut r, &pool, &opts);
-        let text = if pi % 5 == 4 { faulty_variant(&mut r, &program.text) } else if pi % 7 == 6 { hash_order_hostile(&mut r) } else { program.text.clone() };
+        let text = if pi % 11 == 10 { history_hostile(&mut r) } else if pi % 5 == 4 { faulty_variant(&mut r, &program.text) } else if pi % 7 == 6 { hash_order_hostile(&mut r) } else { program.text.clone() };
         let _ = gen_source(&mut r, true, false); // keep the PRNG stream aligned with `child`
         let globals = supply_globals(&mut r, &program);
         // (1) repeated loading
@@ -190,6 +211,14 @@ pub fn run(rep: &mut Report, tier: &str, seed: u64) {
         };
         // (2) one file, several trees, interleaved and concurrent
         let sources: Vec<Source> = (0..3).map(|_| gen_source(&mut r, true, false)).collect();
+        // history-hostile files run on trees whose string is a valid pattern, then an invalid one, twice
+        let sources: Vec<Source> = if pi % 11 == 10 {
+            let good = *r.pick(&["-", "b", "[a-c]"]);
+            let bad = *r.pick(&["(", "[z-a]", "a{2,1}"]);
+            [good, bad, bad].iter().map(|p| { let src = format!("x = \"{}\"\n", p); let tree = crate::tree::parse_python(&src); Source { src, tree } }).collect()
+        } else {
+            sources
+        };
         let infos: Vec<TreeInfo> = sources.iter().map(|s| TreeInfo::new(&s.tree)).collect();
         let run_one = |i: usize, lazy: bool| -> String {
             GLOBALS_CHANGED.with(|c| c.set(false));
